@@ -476,6 +476,7 @@ func (in *interp) addPC(t *smt.Term) {
 		}
 	}
 	in.pc = append(in.pc, t)
+	in.noteOrder(t)
 	if in.model != nil && smt.Eval(t, in.model, map[int]uint64{}) == 0 {
 		in.model = nil
 	}
@@ -509,6 +510,11 @@ func (in *interp) decide(c *smt.Term) bool {
 	}
 	if in.pcSet[nc.ID] {
 		return false
+	}
+	// order shortcut: unsigned comparisons implied by the transitive closure of the
+	// comparisons already on the path condition
+	if r, ok := in.orderImplied(c); ok {
+		return r
 	}
 	if in.pos < len(in.prefix) {
 		d := in.prefix[in.pos]
@@ -739,7 +745,7 @@ func (in *interp) assertCond(label string, c value) {
 		}
 		in.asserts = append(in.asserts, assertRec{label, "violated"})
 		in.recordViolation(label, "assert", "")
-		panic(abortPath{"VIOLATED", "assertion " + label + " is false"})
+		return // the path continues: an assertion is an obligation, not an assumption
 	case *Sym:
 		in.pending = append(in.pending, pendingAssert{label, c.T, in.where()})
 	case poison:
@@ -918,4 +924,154 @@ func (x *Explorer) noteElided(instr *ssa.If) {
 	x.mu.Lock()
 	x.elided[key] = true
 	x.mu.Unlock()
+}
+
+// ---------------------------------------------------------------------------
+// Order closure over unsigned comparisons (sound syntactic reasoning only):
+// edges x -> y for facts x < y (strict) or x <= y taken from path-condition
+// conjuncts of the form (bvult x y), (not (bvult x y)), (bvule x y), (not (bvule x y)).
+
+type orderEdge struct {
+	to     int
+	strict bool
+}
+
+func (in *interp) addOrderEdge(x, y *smt.Term, strict bool) {
+	if in.order == nil {
+		in.order = map[int][]orderEdge{}
+	}
+	in.order[x.ID] = append(in.order[x.ID], orderEdge{y.ID, strict})
+}
+
+func (in *interp) noteOrder(t *smt.Term) {
+	switch t.Op {
+	case "and":
+		for _, a := range t.Args {
+			in.noteOrder(a)
+		}
+	case "bvult":
+		in.addOrderEdge(t.Args[0], t.Args[1], true)
+	case "bvule":
+		in.addOrderEdge(t.Args[0], t.Args[1], false)
+	case "not":
+		u := t.Args[0]
+		switch u.Op {
+		case "bvult": // not (x < y)  ==  y <= x
+			in.addOrderEdge(u.Args[1], u.Args[0], false)
+		case "bvule": // not (x <= y) ==  y < x
+			in.addOrderEdge(u.Args[1], u.Args[0], true)
+		}
+	}
+}
+
+// orderPath reports whether y is reachable from x, and whether some path uses a strict edge.
+func (in *interp) orderPath(x, y int) (reach, strict bool) {
+	if in.order == nil {
+		return false, false
+	}
+	type st struct {
+		id     int
+		strict bool
+	}
+	seen := map[st]bool{}
+	stack := []st{{x, false}}
+	for len(stack) > 0 {
+		cur := stack[len(stack)-1]
+		stack = stack[:len(stack)-1]
+		if seen[cur] {
+			continue
+		}
+		seen[cur] = true
+		if cur.id == y && (cur.id != x || cur.strict) {
+			reach = true
+			if cur.strict {
+				return true, true
+			}
+		}
+		for _, e := range in.order[cur.id] {
+			stack = append(stack, st{e.to, cur.strict || e.strict})
+		}
+	}
+	return reach, false
+}
+
+// ensureSucc adds what is known about u = x + 1: when x < z is known for some z
+// (so x + 1 does not wrap), x < u and u <= z for every such z.
+func (in *interp) ensureSucc(u *smt.Term) {
+	if u.Op != "bvadd" || in.succDone[u.ID] {
+		return
+	}
+	var x *smt.Term
+	switch {
+	case u.Args[1].IsConst() && u.Args[1].Val == 1:
+		x = u.Args[0]
+	case u.Args[0].IsConst() && u.Args[0].Val == 1:
+		x = u.Args[1]
+	default:
+		return
+	}
+	var zs []int
+	for _, e := range in.order[x.ID] {
+		if e.strict {
+			zs = append(zs, e.to)
+		}
+	}
+	if len(zs) == 0 {
+		return
+	}
+	if in.succDone == nil {
+		in.succDone = map[int]bool{}
+	}
+	in.succDone[u.ID] = true
+	in.order[x.ID] = append(in.order[x.ID], orderEdge{u.ID, true})
+	for _, z := range zs {
+		in.order[u.ID] = append(in.order[u.ID], orderEdge{z, false})
+	}
+}
+
+func (in *interp) orderImplied(c *smt.Term) (bool, bool) {
+	neg := false
+	t := c
+	if t.Op == "not" {
+		neg = true
+		t = t.Args[0]
+	}
+	if len(t.Args) == 2 && in.order != nil {
+		in.ensureSucc(t.Args[0])
+		in.ensureSucc(t.Args[1])
+	}
+	var res, ok bool
+	switch t.Op {
+	case "bvult": // x < y
+		x, y := t.Args[0].ID, t.Args[1].ID
+		if _, s := in.orderPath(x, y); s {
+			res, ok = true, true
+		} else if r, _ := in.orderPath(y, x); r { // y <= x
+			res, ok = false, true
+		}
+	case "bvule": // x <= y
+		x, y := t.Args[0].ID, t.Args[1].ID
+		if r, _ := in.orderPath(x, y); r {
+			res, ok = true, true
+		} else if _, s := in.orderPath(y, x); s { // y < x
+			res, ok = false, true
+		}
+	case "=":
+		if t.Args[0].W == 0 {
+			return false, false
+		}
+		x, y := t.Args[0].ID, t.Args[1].ID
+		if _, s := in.orderPath(x, y); s {
+			res, ok = false, true
+		} else if _, s := in.orderPath(y, x); s {
+			res, ok = false, true
+		}
+	}
+	if !ok {
+		return false, false
+	}
+	if neg {
+		res = !res
+	}
+	return res, true
 }
